@@ -88,9 +88,10 @@ func SpecFmtEof(lines []string) []string {
 //@   opt termination C09
 //@   results r
 //@   ensures functional: r == SpecFmtEof(lines)
-//@   loop 0 invariant -1 <= i && i <= len(lines)-1 && eof == i
-//@   loop 0 invariant SpecLastNonEmpty(lines, len(lines)-1) == SpecLastNonEmpty(lines, i)
-//@   loop 0 decreases i + 1
+//@   loop 0 invariant -1 <= eof && eof <= len(lines)-1
+//@   loop 0 invariant SpecLastNonEmpty(lines, len(lines)-1) == SpecLastNonEmpty(lines, eof)
+//@   loop 0 invariant? counter: eof == i
+//@   loop 0 decreases eof + 1
 
 // ---- format: one line ---------------------------------------------------------------
 // Functional specification of processLine: which text a line becomes (SpecLineBody),
